@@ -277,6 +277,8 @@ class Interp:
             if unknown:
                 return Unknown("comprehension over " + unknown[0].why)
             return out
+        if isinstance(node, ast.Lambda) and self.def_hook is not None and not node.args.vararg and not node.args.kwarg and not node.args.kwonlyargs:
+            return self.def_hook(self, node)  # a function value: its body is evaluated, in the defining environment, when it is called
         raise AnalysisError(f"guard language: unsupported expression {text!r} ({type(node).__name__})")
 
     def truth(self, val, node):
